@@ -3,6 +3,7 @@ package main
 import (
 	"crypto/sha256"
 	"encoding/hex"
+	"encoding/json"
 	"fmt"
 	"math/big"
 	"math/rand"
@@ -17,7 +18,11 @@ import (
 	"verif/harness/cmd/internal/svcslice"
 	"verif/harness/drv"
 
+	htlc "mods.irisnet.org/modules/htlc"
+	oracle "mods.irisnet.org/modules/oracle"
+	random "mods.irisnet.org/modules/random"
 	randomtypes "mods.irisnet.org/modules/random/types"
+	service "mods.irisnet.org/modules/service"
 	servicetypes "mods.irisnet.org/modules/service/types"
 	"mods.irisnet.org/simapp"
 )
@@ -46,6 +51,7 @@ type randEnv struct {
 	idUpTo   int64
 	last     chain.M
 	prevHash []byte
+	accts    map[string]string
 }
 
 var seedRe = regexp.MustCompile(`"seed"\s*:\s*"([0-9a-fA-F]*)"`)
@@ -73,6 +79,7 @@ func newRandEnv(fl *drv.Flags) *randEnv {
 	for _, p := range e.provs {
 		accts[p] = fmt.Sprintf("%d%s", 40, svcslice.Denom)
 	}
+	e.accts = accts
 	e.c = chain.New(chain.Options{
 		Accounts: accts,
 		MutateGenesis: func(c *chain.Chain, gs simapp.GenesisState) {
@@ -81,19 +88,7 @@ func newRandEnv(fl *drv.Flags) *randEnv {
 		},
 	})
 	c := e.c
-	e.svc = svcslice.NewEnv(c, randomtypes.ServiceName, e.provs)
-	e.svc.RenderOutput = func(output string) (string, int64) {
-		m := seedRe.FindStringSubmatch(output)
-		if m == nil || len(m[1]) != 64 {
-			return "bad", 0
-		}
-		for k := int64(0); k < 8; k++ {
-			if strings.EqualFold(hex.EncodeToString(seedBytes(k)), m[1]) {
-				return "seed", k
-			}
-		}
-		return "seed", -1
-	}
+	e.bindEnv()
 	// block 2: providers bind the random service (real MsgBindService)
 	var txs []chain.Tx
 	for i, p := range e.provs {
@@ -111,6 +106,23 @@ func newRandEnv(fl *drv.Flags) *randEnv {
 	}
 	c.Project = func(ctx sdk.Context) any { return e.project(ctx) }
 	return e
+}
+
+// bindEnv attaches the service-slice projection to the current chain.
+func (e *randEnv) bindEnv() {
+	e.svc = svcslice.NewEnv(e.c, randomtypes.ServiceName, e.provs)
+	e.svc.RenderOutput = func(output string) (string, int64) {
+		m := seedRe.FindStringSubmatch(output)
+		if m == nil || len(m[1]) != 64 {
+			return "bad", 0
+		}
+		for k := int64(0); k < 8; k++ {
+			if strings.EqualFold(hex.EncodeToString(seedBytes(k)), m[1]) {
+				return "seed", k
+			}
+		}
+		return "seed", -1
+	}
 }
 
 func (e *randEnv) accounts() []string { return append(append([]string{}, e.users...), e.provs...) }
@@ -399,6 +411,54 @@ func (e *randEnv) runBlock(begin chain.M, pending []chain.M, w *chain.TraceWrite
 	return true
 }
 
+// zhOK: the states for which Random.tla models a zero-height restart (no
+// service context, only block-hash requests in the queue).
+func (e *randEnv) zhOK() bool {
+	if len(e.last["ctx"].(chain.M)) > 0 || len(e.last["opend"].(chain.M)) > 0 || e.last["inb"].(bool) {
+		return false
+	}
+	h := e.last["h"].(int64)
+	for _, q := range e.last["pending"].([]any) {
+		m := q.(chain.M)
+		if m["oracle"].(bool) || m["due"].(int64) < h-1 {
+			return false
+		}
+	}
+	return true
+}
+
+// zeroHeight restarts the chain from a zero-height export of its committed
+// state: the modules' own PrepForZeroHeightGenesis steps, ExportGenesis, a new
+// application initialised from that genesis at height 1, and its first (empty)
+// block.  The trace continues on the new chain.
+func (e *randEnv) zeroHeight(w *chain.TraceWriter) {
+	ev := randEvent("ZeroHeight", "")
+	if !e.zhOK() {
+		ev["ok"] = false
+		w.Write(ev, e.last)
+		return
+	}
+	old := e.c
+	gs, err := old.ExportGenesis(true, func(ctx sdk.Context) {
+		htlc.PrepForZeroHeightGenesis(ctx, old.K.HTLC)
+		random.PrepForZeroHeightGenesis(ctx, old.K.Random)
+		service.PrepForZeroHeightGenesis(ctx, old.K.Service)
+		oracle.PrepForZeroHeightGenesis(ctx, old.K.Oracle)
+	})
+	if err != nil {
+		panic("zero-height export: " + err.Error())
+	}
+	bz, err := json.Marshal(gs)
+	if err != nil {
+		panic(err)
+	}
+	e.c = chain.New(chain.Options{Accounts: e.accts, GenesisBytes: bz, InitialHeight: 1, GenesisTime: old.Time})
+	e.bindEnv()
+	e.c.Project = func(ctx sdk.Context) any { return e.project(ctx) }
+	e.last = e.project(e.c.Ctx()).(chain.M)
+	w.Write(ev, e.last)
+}
+
 func (e *randEnv) start(w *chain.TraceWriter) {
 	e.last = e.project(e.c.Ctx()).(chain.M)
 	w.Write(randEvent("Init", ""), e.last)
@@ -432,6 +492,13 @@ func randRun(fl *drv.Flags, beh []chain.M, w *chain.TraceWriter) {
 			if !flush() {
 				return
 			}
+		case "ZeroHeight":
+			if begin != nil || len(pending) > 0 {
+				if !flush() {
+					return
+				}
+			}
+			e.zeroHeight(w)
 		default:
 			if e.msgOf(ev) == nil {
 				continue
@@ -531,6 +598,15 @@ func randRandom(fl *drv.Flags, rng *rand.Rand, w *chain.TraceWriter) {
 				}
 			}
 		}
+		// late answers: to contexts whose batch expired and was cleaned up
+		if rng.Intn(5) == 0 && e.svc.NCtx > 0 {
+			cn := fmt.Sprintf("c%d", 1+rng.Int63n(e.svc.NCtx))
+			if _, alive := ctxs[cn]; !alive {
+				ev := randEvent("Respond", e.provs[rng.Intn(len(e.provs))])
+				ev["ctx"], ev["kind"], ev["seed"] = cn, "seed", int64(rng.Intn(8))
+				pending = append(pending, ev)
+			}
+		}
 		// requests; now and then a burst falling due at one height
 		n := rng.Intn(3)
 		if rng.Intn(7) == 0 {
@@ -570,6 +646,10 @@ func randRandom(fl *drv.Flags, rng *rand.Rand, w *chain.TraceWriter) {
 		rng.Shuffle(len(pending), func(i, j int) { pending[i], pending[j] = pending[j], pending[i] })
 		if !e.runBlock(begin, pending, w) {
 			return
+		}
+		// zero-height restarts (cfg zh=1; only where the specification models them)
+		if fl.CfgInt("zh", 0) == 1 && b > 3 && rng.Intn(8) == 0 && e.zhOK() && len(e.last["pending"].([]any)) > 0 {
+			e.zeroHeight(w)
 		}
 	}
 	e.epilogue(w)
